@@ -56,11 +56,12 @@ def universes(tier, seed):
         out.append((f"MAA3[{seed % 8192}/8192]+input", [("u", ("idx", 3, i), ("idx", 1, 2)) for i in U.shard(U.catalogue("maa"), seed, 8192)]))
     else:
         out.append(("U2", [("idx", 2, i) for i in range(256)]))
-        out.append((f"F3c[{seed % 4}/4]", [("idx", 3, i) for i in U.shard(U.F3_indices(True), seed, 4)]))
-        out.append(("MULTI3", [("idx", 3, i) for i in U.catalogue("multi")]))
-        out.append(("NFVS3_multi", [("idx", 3, i) for i in U.catalogue("nfvs_multi")]))
-        out.append((f"NFVS3[{seed % 256}/256]", [("idx", 3, i) for i in U.shard(U.catalogue("nfvs"), seed, 256)]))
-        out.append((f"MAA3[{seed % 64}/64]", [("idx", 3, i) for i in U.shard(U.catalogue("maa"), seed, 64)]))
+        out.append((f"F3c[{seed % 64}/64]", [("idx", 3, i) for i in U.shard(U.F3_indices(True), seed, 64)]))
+        out.append((f"MULTI3[{seed % 8}/8]", [("idx", 3, i) for i in U.shard(U.catalogue("multi"), seed, 8)]))
+        out.append((f"NFVS3_multi[{seed % 8}/8]", [("idx", 3, i) for i in U.shard(U.catalogue("nfvs_multi"), seed, 8)]))
+        out.append((f"NFVS3[{seed % 8192}/8192]", [("idx", 3, i) for i in U.shard(U.catalogue("nfvs"), seed, 8192)]))
+        out.append((f"MAA3[{seed % 2048}/2048]", [("idx", 3, i) for i in U.shard(U.catalogue("maa"), seed, 2048)]))
+        out.append((f"MAA3[{seed % 8192}/8192]+input", [("u", ("idx", 3, i), ("idx", 1, 2)) for i in U.shard(U.catalogue("maa"), seed, 8192)]))
     return out
 
 
